@@ -98,6 +98,9 @@ def run(ctx):
     for (src, o), r in zip(meta, out):
         stats["SSA CFGs checked"] += 1
         probs = static_facts(o["cfg"], o["ssa"])
+        if o.get("undeclared_by_lookup"):
+            # every version is covered by a declaration — also for the accessors `Cfg::get_declaration` / `Cfg::get_type` (audit C14 f1)
+            probs.append("the declaration lookup finds no declaration for %s" % ", ".join(o["undeclared_by_lookup"][:6]))
         if r.startswith("ok"):
             parts = dict(p.split("=") for p in r.split()[1:])
             stats["variables"] += int(parts["vars"])
